@@ -76,7 +76,7 @@ class AffinityMonitor(Monitor):
                 if routing_key != self.shared and routing_key != self.inst_queue(node):
                     self.add(PROP, "start-event-queue", "start event of %s published by %s to %r" % (arn, node, routing_key))
                 kid = arn.split(":")[6] if arn.count(":") >= 7 else ""
-                if kid in ("kid-sync", "kid-sync2", "kid-sdk") and routing_key != self.inst_queue(node):
+                if kid in ("kid-sync", "kid-sync2", "kid-sdk", "kid-token") and routing_key != self.inst_queue(node):
                     # the launching Task waits for this child: it has to run on the instance that holds that Task
                     self.add(PROP, "sync-child-start-queue", "start event of the synchronous child %s published by %s to "
                                                               "%r, its own queue is %r" % (arn, node, routing_key,
@@ -185,10 +185,19 @@ def affinity_case(i, tier):
         elif r < 0.75:
             name = rng.choice(sorted(corpus.NESTED))
             c = corpus.NESTED[name]
+        elif r < 0.8:
+            # a Task whose function has no queue: the mandatory request comes back (Basic.Return) and fails the Task;
+            # a returned message is not a delivery, nothing may be acknowledged for it
+            name = "task-function-queue-missing"
+            c = dict(definition={"StartAt": "T", "States": {
+                "T": {"Type": "Task", "Resource": F + "nobody-listens", "TimeoutSeconds": 5,
+                      "Catch": [{"ErrorEquals": ["States.ALL"], "ResultPath": "$.err", "Next": "H"}], "End": True},
+                "H": {"Type": "Pass", "End": True}}}, input={"v": k}, script={})
         else:
-            form = rng.choice(["startExecution", "startExecution.sync", "startExecution.sync:2", "sdk-startSyncExecution"])
+            form = rng.choice(["startExecution", "startExecution.sync", "startExecution.sync:2", "sdk-startSyncExecution",
+                               "startExecution.waitForTaskToken"])
             kid = "kid-" + {"startExecution": "async", "startExecution.sync": "sync", "startExecution.sync:2": "sync2",
-                            "sdk-startSyncExecution": "sdk"}[form]
+                            "sdk-startSyncExecution": "sdk", "startExecution.waitForTaskToken": "token"}[form]
             name = "launch-" + kid
             resource = "arn:aws:states:local::aws-sdk:sfn:startSyncExecution" if kid == "kid-sdk" else \
                 "arn:aws:states:local::states:" + form
@@ -196,6 +205,13 @@ def affinity_case(i, tier):
                                                                   "Parameters": {"StateMachineArn": E.SM_ARN % kid, "Input": {"v.$": "$.v"}},
                                                                   "End": True}}},
                      input={"v": k}, script={})
+            if kid == "kid-token":
+                # nobody presents the token: the launching Task ends by its own time-out (caught); what matters here is
+                # where the child's start event is published - the Task that waits has to be able to reach the child
+                c["definition"]["States"]["L"].update(TimeoutSeconds=4, Catch=[{"ErrorEquals": ["States.Timeout"],
+                                                                                 "ResultPath": "$.err", "Next": "H"}])
+                c["definition"]["States"]["L"]["Parameters"]["Input"]["token.$"] = "$$.Task.Token"
+                c["definition"]["States"]["H"] = {"Type": "Pass", "End": True}
             machines[kid] = {"definition": {"StartAt": "T", "States": {"T": {"Type": "Task", "Resource": F + "kidwork",
                                                                              "End": True}}},
                              "type": "EXPRESS" if kid == "kid-sdk" else rng.choice(["STANDARD", "EXPRESS"])
@@ -449,6 +465,28 @@ def gen_queue_address(rng):
     return name
 
 
+def gen_producer_addresses(rng, i):
+    """Producer addresses from the documented grammar: a name that is a queue, an existing exchange, or the exchange the
+    options declare - or one that differs from it (the doc's own 'myqueue; {... "exchange": "test-headers" ...}'),
+    with and without a subject, options-only forms with and without the leading ';'."""
+    out = []
+    for k in range(3):
+        ex = "px-%d-%d" % (i % 5, k)      # one declaration per exchange name (re-declaring with another type is a broker error)
+        xd = {"exchange": ex, "exchange-type": rng.choice(["topic", "direct", "fanout", "headers"])}
+        if rng.random() < 0.5:
+            xd["durable"] = rng.random() < 0.7
+        if rng.random() < 0.3:
+            xd["auto-delete"] = rng.random() < 0.5
+        opts = json.dumps({"node": {"x-declare": xd}})
+        name = rng.choice(["", "", ex, ex, "pq-%d" % rng.randint(0, 3), "pq-%d" % rng.randint(0, 3), "amq.topic"])
+        subject = rng.choice(["", "", "news.sports"])
+        if name == "":
+            out.append(rng.choice(["; ", ""]) + opts)
+        else:
+            out.append(name + ("/" + subject if subject else "") + "; " + opts)
+    return out
+
+
 def check_queue_address(h, address, findings):
     from model import address as A
     n0 = len(h.sim.broker.oplog)
@@ -601,7 +639,7 @@ def mapping_case(i, tier):
         # producer forms
         prod_sigs = []
         for addr in ["plainq", "amq.topic/news.sports", '; {"node": {"x-declare": {"exchange": "ex-%d", "exchange-type": "topic", '
-                     '"durable": true}}}' % (i % 3)]:
+                     '"durable": true}}}' % (i % 3)] + gen_producer_addresses(random.Random(seed ^ 0x919), i):
             n0 = len(h.sim.broker.oplog)
             try:
                 p = h.producer(addr)
